@@ -1,7 +1,9 @@
-//go:build !skip_c07_fs
+//go:build !skip_c06c07_fs
 
 package main
 
+// The real FileStorage back-end for the bundle checks.
+// C06: whole histories run in this process on a FileStorage directory through a logging wrapper.
 // C07, real process death on the real FileStorage: the faulted operation runs in a CHILD PROCESS
 // (this same binary, re-executed) on a FileStorage directory through a counting wrapper that sends
 // SIGKILL to its own process right after Storage call k has returned. Nothing of the dying
@@ -45,6 +47,21 @@ type c07FSStore struct {
 	fs   *certmagic.FileStorage
 	mu   sync.Mutex
 	onOp func(kind, key, err string)
+	// pre, if set, may fail the call before it reaches the FileStorage (injected storage error)
+	pre func(kind, key string) error
+}
+
+func (s *c07FSStore) inject(kind, key string) error {
+	if s.pre == nil {
+		return nil
+	}
+	s.mu.Lock()
+	err := s.pre(kind, key)
+	if err != nil {
+		s.onOp(kind, key, err.Error())
+	}
+	s.mu.Unlock()
+	return err
 }
 
 func c07FSErr(err error) string {
@@ -62,21 +79,33 @@ func (s *c07FSStore) done(kind, key string, err error) {
 	s.onOp(kind, key, c07FSErr(err))
 }
 func (s *c07FSStore) Store(ctx context.Context, key string, value []byte) error {
+	if err := s.inject("Store", key); err != nil {
+		return err
+	}
 	err := s.fs.Store(ctx, key, value)
 	s.done("Store", key, err)
 	return err
 }
 func (s *c07FSStore) Load(ctx context.Context, key string) ([]byte, error) {
+	if err := s.inject("Load", key); err != nil {
+		return nil, err
+	}
 	v, err := s.fs.Load(ctx, key)
 	s.done("Load", key, err)
 	return v, err
 }
 func (s *c07FSStore) Delete(ctx context.Context, key string) error {
+	if err := s.inject("Delete", key); err != nil {
+		return err
+	}
 	err := s.fs.Delete(ctx, key)
 	s.done("Delete", key, err)
 	return err
 }
 func (s *c07FSStore) Exists(ctx context.Context, key string) bool {
+	if err := s.inject("Exists", key); err != nil {
+		return false
+	}
 	ok := s.fs.Exists(ctx, key)
 	s.done("Exists", key, nil)
 	return ok
@@ -92,11 +121,17 @@ func (s *c07FSStore) Stat(ctx context.Context, key string) (certmagic.KeyInfo, e
 	return ki, err
 }
 func (s *c07FSStore) Lock(ctx context.Context, name string) error {
+	if err := s.inject("Lock", name); err != nil {
+		return err
+	}
 	err := s.fs.Lock(ctx, name)
 	s.done("Lock", name, err)
 	return err
 }
 func (s *c07FSStore) Unlock(ctx context.Context, name string) error {
+	if err := s.inject("Unlock", name); err != nil {
+		return err
+	}
 	err := s.fs.Unlock(ctx, name)
 	s.done("Unlock", name, err)
 	return err
@@ -110,6 +145,8 @@ type c07FSEvent struct {
 	Digest string `json:"digest,omitempty"`
 	Serial string `json:"serial,omitempty"`
 	Staple string `json:"staple,omitempty"`
+	Chain  string `json:"chain,omitempty"`
+	Blocks int    `json:"blocks,omitempty"`
 	Res    int    `json:"res,omitempty"`
 }
 
@@ -119,7 +156,7 @@ type c07FSSpec struct {
 	Cfg     c06Cfg         `json:"cfg"`
 	Subj    c06Subject     `json:"subject"`
 	Hop     c06Hop         `json:"hop"`
-	Crash   int            `json:"crash"` // SIGKILL after Storage call number Crash (0-based); -1: never
+	Plan    c06Plan        `json:"plan"` // Crash: SIGKILL after that Storage call (0-based; -1: never); Fails/From: calls failed before they reach the disk
 	NextKey int            `json:"next_key"`
 	NextSer int            `json:"next_ser"`
 	KeyIDs  map[string]int `json:"key_ids"`
@@ -156,17 +193,23 @@ func c07FSChildMain(specPath string) {
 	}
 	w.sink = func(kind, key string) { put(c07FSEvent{K: kind, Key: key}) }
 	w.onGenKey = func(id int, digest string) { put(c07FSEvent{K: "KeyInfo", ID: id, Digest: digest}) }
-	w.onIssued = func(ser int, serial, staple string) {
-		put(c07FSEvent{K: "IssueInfo", ID: ser, Serial: serial, Staple: staple})
+	w.onIssued = func(ser int, serial, staple, chain string, blocks int) {
+		put(c07FSEvent{K: "IssueInfo", ID: ser, Serial: serial, Staple: staple, Chain: chain, Blocks: blocks})
 	}
 	w.orc = &sp.Hop.Orc
 	cnt := 0
 	st := &c07FSStore{fs: &certmagic.FileStorage{Path: sp.Dir}}
+	st.pre = func(kind, key string) error {
+		if c06CountedKind(kind) && sp.Plan.fails(cnt) {
+			return c06ErrInjected
+		}
+		return nil
+	}
 	st.onOp = func(kind, key, e string) {
 		put(c07FSEvent{K: kind, Key: key, Err: e})
 		n := cnt
 		cnt++
-		if n == sp.Crash {
+		if n == sp.Plan.Crash {
 			syscall.Kill(syscall.Getpid(), syscall.SIGKILL)
 			select {} // never returns to the caller
 		}
@@ -199,6 +242,23 @@ type c07FSWorld struct {
 	dir string
 	mu  sync.Mutex
 	evs []c07FSEvent
+	cnt int // Storage calls of the current in-process instance
+}
+
+// c07NewFSWorld: a bundle world whose storage is the FileStorage directory dir.
+func c07NewFSWorld(cfg c06Cfg, subj c06Subject, dir string) *c07FSWorld {
+	fw := &c07FSWorld{c06World: c06NewWorld(cfg, subj), dir: dir}
+	store := &certmagic.FileStorage{Path: dir}
+	fw.rawGet = func(key string) ([]byte, bool) {
+		b, err := os.ReadFile(store.Filename(key))
+		return b, err == nil
+	}
+	fw.rawPut = func(key string, val []byte) {
+		os.MkdirAll(filepath.Dir(store.Filename(key)), 0o700)
+		os.WriteFile(store.Filename(key), val, 0o600)
+	}
+	fw.snapFn = fw.snapshotFS
+	return fw
 }
 
 func (fw *c07FSWorld) record(ev c07FSEvent) {
@@ -220,6 +280,7 @@ func (fw *c07FSWorld) toObs(o *c06Obs, evs []c07FSEvent) {
 		case "IssueInfo":
 			w.serIDs[ev.Serial] = ev.ID
 			w.stapleSer[ev.Staple] = ev.ID
+			w.chainDigest[ev.ID], w.chainBlocks[ev.ID] = ev.Chain, ev.Blocks
 			if ev.ID >= w.nextSer {
 				w.nextSer = ev.ID + 1
 			}
@@ -250,12 +311,32 @@ func (fw *c07FSWorld) snapshotFS(o *c06Obs) {
 
 // runLocal: one operation by a fresh instance in THIS process on the directory (set-up, recovery).
 func (fw *c07FSWorld) runLocal(h c06Hop, doProbe bool) (c06Obs, bool) {
+	return fw.runLocalPlan(h, nil, doProbe)
+}
+
+// runLocalPlan: as runLocal; plan (error indices only, no crash) fails Storage calls of this instance
+// before they reach the FileStorage. fw.cnt is the number of Storage calls made.
+func (fw *c07FSWorld) runLocalPlan(h c06Hop, plan *c06Plan, doProbe bool) (c06Obs, bool) {
 	w := fw.c06World
 	w.orc = &h.Orc
 	fw.evs = nil
 	w.sink = func(kind, key string) { fw.record(c07FSEvent{K: kind, Key: key}) }
 	st := &c07FSStore{fs: &certmagic.FileStorage{Path: fw.dir}}
-	st.onOp = func(kind, key, e string) { fw.record(c07FSEvent{K: kind, Key: key, Err: e}) }
+	fw.cnt = 0
+	st.onOp = func(kind, key, e string) {
+		fw.record(c07FSEvent{K: kind, Key: key, Err: e})
+		if c06CountedKind(kind) {
+			fw.cnt++
+		}
+	}
+	if plan != nil {
+		st.pre = func(kind, key string) error {
+			if c06CountedKind(kind) && plan.fails(fw.cnt) {
+				return c06ErrInjected
+			}
+			return nil
+		}
+	}
 	cfg, cache := w.newConfigOn(st, false)
 	defer cache.Stop()
 	ctx, cancel := context.WithTimeout(context.Background(), 90*time.Second)
@@ -268,6 +349,10 @@ func (fw *c07FSWorld) runLocal(h c06Hop, doProbe bool) (c06Obs, bool) {
 		err = cfg.RenewCertSync(ctx, w.subj.Spelling, h.Force)
 	case "manage":
 		err = cfg.ManageSync(ctx, []string{w.subj.Spelling})
+	case "revenv":
+		w.revokeEnv(h.I, h.KC)
+	case "revapi":
+		err = cfg.RevokeCert(ctx, w.subj.Spelling, 0, true)
 	default:
 		panic("unknown op " + h.Op)
 	}
@@ -305,10 +390,10 @@ func (fw *c07FSWorld) runLocal(h c06Hop, doProbe bool) (c06Obs, bool) {
 }
 
 // runChild: the faulted operation in a child process that kills itself after Storage call k.
-func (fw *c07FSWorld) runChild(h c06Hop, crash int, scratch string) (c06Obs, int, error) {
+func (fw *c07FSWorld) runChild(h c06Hop, plan c06Plan, scratch string) (c06Obs, int, error) {
 	w := fw.c06World
 	logPath := filepath.Join(scratch, "child.log")
-	spec := c07FSSpec{Dir: fw.dir, Cfg: w.cfg, Subj: w.subj, Hop: h, Crash: crash, NextKey: w.nextKey, NextSer: w.nextSer,
+	spec := c07FSSpec{Dir: fw.dir, Cfg: w.cfg, Subj: w.subj, Hop: h, Plan: plan, NextKey: w.nextKey, NextSer: w.nextSer,
 		KeyIDs: w.keyIDs, Now: w.now.Unix(), Log: logPath}
 	raw, _ := json.Marshal(spec)
 	specPath := filepath.Join(scratch, "spec.json")
@@ -395,7 +480,7 @@ func c07RunFSCase(in c07In, base string, idx int) c07FSResult {
 		return c07FSResult{skip: "mkdir: " + err.Error()}
 	}
 	defer os.RemoveAll(scratch)
-	fw := &c07FSWorld{c06World: c06NewWorld(in.Cfg, in.Subj), dir: dir}
+	fw := c07NewFSWorld(in.Cfg, in.Subj, dir)
 	// the set-up runs in child processes too (which exit normally): a process that has held and
 	// released a FileStorage lock keeps a heartbeat goroutine for up to one interval, and that goroutine
 	// would adopt and refresh for ever the lock file the dying child creates under the same name
@@ -403,13 +488,13 @@ func c07RunFSCase(in c07In, base string, idx int) c07FSResult {
 	for si, h := range in.Setup {
 		sub := filepath.Join(scratch, fmt.Sprintf("setup%d", si))
 		os.MkdirAll(sub, 0o755)
-		if o, _, err := fw.runChild(h, -1, sub); err != nil || o.Res != 0 {
+		if o, _, err := fw.runChild(h, c06Plan{From: -1, Crash: -1}, sub); err != nil || o.Res != 0 {
 			return c07FSResult{skip: fmt.Sprintf("setup failed: %v res=%d %s", err, o.Res, o.Err)}
 		}
 	}
 	var s0 c06Obs
 	fw.snapshotFS(&s0)
-	o1, counted, err := fw.runChild(in.Hop, in.Plan.Crash, scratch)
+	o1, counted, err := fw.runChild(in.Hop, in.Plan, scratch)
 	if err != nil {
 		return c07FSResult{skip: err.Error()}
 	}
@@ -434,13 +519,19 @@ func c07RunFSCase(in c07In, base string, idx int) c07FSResult {
 	r := c07FSResult{}
 	r.hist = []string{"fs:variant=" + in.Variant, "fs:window=" + window, fmt.Sprintf("fs:faulted_res=%d", o1.Res),
 		fmt.Sprintf("fs:recover_res=%d", o2.Res), fmt.Sprintf("fs:twin_ok=%v", twin), "fs:class=" + class,
-		fmt.Sprintf("fs:recovery_waited_for_stale_lock=%v", wait > 5*time.Second), "backend=filestorage-sigkill", fmt.Sprintf("fs:recovery_timed_out=%v", timedOut), "fs:keytype=" + in.Cfg.KeyType}
+		fmt.Sprintf("fs:recovery_waited_for_stale_lock=%v", wait > 5*time.Second), "backend=" + in.Backend, "fs:kind=" + in.Kind, fmt.Sprintf("fs:recovery_timed_out=%v", timedOut), "fs:keytype=" + in.Cfg.KeyType}
 	key, _ := json.Marshal([]any{"fs", in.Variant, in.Plan})
+	hit := in.Plan.Crash >= 0 && in.Plan.Crash < counted && o1.Res == 6 || in.Plan.From >= 0 && in.Plan.From < counted
+	for _, f := range in.Plan.Fails {
+		if f < counted {
+			hit = true
+		}
+	}
 	r.c = emit.Case{
 		Desc: map[string]any{"class": class, "variant": in.Variant, "kind": in.Kind, "window": window,
-			"reuse": in.Cfg.Reuse, "issuers": in.Cfg.N, "fresh_key": c07FreshKey(o1), "backend": "filestorage-sigkill"},
+			"reuse": in.Cfg.Reuse, "issuers": in.Cfg.N, "fresh_key": c07FreshKey(o1), "backend": in.Backend},
 		In: in, Obs: map[string]any{"faulted": o1, "recovered": o2, "handshake_twin_ok": twin, "storage_before": s0.St,
 			"recovery_seconds": wait.Seconds()},
-		Wire: e.String(), Nontrivial: o1.Res == 6 && in.Plan.Crash < counted, Key: string(key)}
+		Wire: e.String(), Nontrivial: hit, Key: string(key)}
 	return r
 }
